@@ -77,7 +77,7 @@ def run(chk, which="C01"):
     names = sorted(units)
     # candidate unit expressions: library units + generated compound / scaled / powered units
     cands = [(("leaf", n), f"au::{n}") for n in names]
-    n_gen = 40 if tier == "quick" else 300
+    n_gen = 40 if tier == "quick" else 150
     while len(cands) < len(names) + n_gen:
         t = model.gen_tree(rnd, names, rnd.choice([1, 2, 2, 3]))
         if model.count_leaves(t) > 5 or model.has_ordering_tie(t, leaves) or not model.max_exp_ok(model.ev(t, leaves)):
@@ -96,7 +96,7 @@ def run(chk, which="C01"):
         for d2 in dims[i + 1:]:
             pairs.append((d1, d2))
     rnd.shuffle(pairs)
-    npairs = 70 if tier == "quick" else min(len(pairs), 700)
+    npairs = 70 if tier == "quick" else min(len(pairs), 260)
     probes = []
     pid = 1
     stats = {"mismatch_pairs": 0, "control_pairs": 0, "dimension_classes": len(dims)}
@@ -161,7 +161,7 @@ def run(chk, which="C01"):
     ctrl_dims = [d for d in dims if d != ()]
     rnd.shuffle(ctrl_dims)
     ctrl_pairs = []
-    for d1 in ctrl_dims[: (30 if tier == "quick" else 200)]:
+    for d1 in ctrl_dims[: (30 if tier == "quick" else 90)]:
         t1, s1, e1 = rnd.choice(by_dim[d1])
         others = [z for z in by_dim[d1] if z[1] != s1 and model.ekey(z[2].mag) != model.ekey(e1.mag) and not model.has_ordering_tie(("mul", t1, z[0]), leaves)]
         if others and rnd.random() < 0.8:
@@ -202,7 +202,7 @@ def run(chk, which="C01"):
             pid += 1
 
     pre = PRE_TMPL % planeb.unit_includes(units)
-    cfgs = [(core.GXX, "c++14"), (core.CLANGXX, "c++20")] if tier == "quick" else core.CONFIGS
+    cfgs = [(core.GXX, "c++14"), (core.CLANGXX, "c++20")] if tier == "quick" else [(core.GXX, "c++14"), (core.CLANGXX, "c++17"), (core.GXX, "c++20"), (core.CLANGXX, "c++20")]
     by = {p["id"]: p for p in probes}
 
     def do_cfg(cfg):
